@@ -259,6 +259,10 @@ def plan_for(prop, tier, seed):
         deep = corpus.gen_bw_deep(random.Random(seed * 77 + 1))
         for n in ((1, 16) if q else (1, 2, 5, 16)):
             P.add(Entry("bw_deep_n%d" % n, "bytewise", "standard", deep, nfb=n), *(("T1",) if q else ("T1", "T5")))
+        if not q:
+            dense = corpus.gen_bw_dense(random.Random(seed * 91 + 2))
+            for n in (1, 3):
+                P.add(Entry("bw_dense_n%d" % n, "bytewise", "standard", dense, nfb=n), "T1")
         # char-wise: small alphabets give tiny blocks, so eviction happens with few patterns
         cwset = ["ab", "ba", "abab", "bbab", "aabb", "babb", "aaab", "bbba", "abba", "baab", "aaaa", "bbbb"]
         for n in ((1, 16) if q else vals):
